@@ -214,11 +214,19 @@ static KSI_ExtendResp *c04_build_extresp(KSI_CTX *ctx) {
 	int res = KSI_ExtendResp_new(ctx, &r);
 	ASSUME(res == KSI_OK && r != NULL);
 #if C04_EXT_HAS_STATUS
+#ifdef C04_EXT_STATUS_VALUE      /* concrete status (it decides whether a chain is taken from the reply at all) */
+	C4.ext.status = (C04_EXT_STATUS_VALUE);
+#else
 	C4.ext.status = ND(u64, c04_ext_status);
+#endif
 	res = KSI_ExtendResp_setStatus(r, sb_mk_int(C4.ext.status)); ASSUME(res == KSI_OK);
 #endif
 #if C04_EXT_HAS_REQID
+#ifdef C04_EXT_REQID_VALUE
+	C4.ext.reqId = (C04_EXT_REQID_VALUE);
+#else
 	C4.ext.reqId = ND(u64, c04_ext_reqid);
+#endif
 	res = KSI_ExtendResp_setRequestId(r, sb_mk_int(C4.ext.reqId)); ASSUME(res == KSI_OK);
 #endif
 	c04_ext_cal = NULL;
